@@ -15,13 +15,21 @@ RULE = ("Hypothesis draws a layer kind (Lattice, PWLCalibration, Linear, "
         "KFL sub-layers), a valid constraint configuration (PWL also with "
         "imputed missing values with/without missing_input_value, split "
         "outputs, cyclic, learned_interior keypoints with initial or moved "
-        "logits), 1-3 units, eps "
-        "(relative to the weight scale in {1e-6..1e-1} or absolute in {1e-6, "
-        "1e-4, 1e-2}) and weights of one of four classes: feasible (certified "
+        "logits), a spelling of the configuration (ints or 'increasing' / "
+        "'valley' / 'convex' / 'positive' strings, one constraint tuple "
+        "instead of a one-element list, scalar Linear monotonicities, "
+        "lattice_sizes as tuple), 1-3 units, eps "
+        "(relative to the weight scale in {1e-6..1e-1}, absolute in {1e-6, "
+        "1e-4, 1e-2, 1, 100}, or omitted = the documented default 1e-6 / 1e-4 "
+        "for Linear) and weights of one of four classes: feasible (certified "
         "projection / constructive / the layer's own constraints for KFL) with "
         "a drawn interior margin, arbitrary, and feasible with ONE injected "
         "violation of a drawn covered kind at a location and unit drawn from "
-        "the full list of (kind, location, unit) targets, of size >= 4 eps. "
+        "the full list of (kind, location, unit) targets, of size 2.5, 4, 8 or "
+        "64 eps (must raise) or 0.2 eps (an allowed violation: must return). "
+        "Lattices have sizes <= 3 per dimension (rank <= 4) or, one in three, "
+        "one dimension of size 4-5 (rank <= 2, every violated kind equally "
+        "likely, location preferably the last cell). "
         "The weights are assigned to the layer, layer.assert_constraints(eps) "
         "is called in eager mode and 'raised InvalidArgumentError' / 'returned' "
         "is compared with the float64 measure v of the covered constraint "
@@ -51,7 +59,9 @@ LEVEL_NOTE = ("Decision band: raise iff v >= 2 eps + n, return iff v <= eps/4 - 
               "convexity are not covered by the library's assertions and are "
               "not judged. RTL structure (which sub-lattice has which "
               "monotonicities) is read from the built layer. Shapes: lattices "
-              "<= 81 vertices quick / 256 thorough.")
+              "<= 81 vertices quick / 256 thorough. An injected 0.2 eps "
+              "violation is drawn with eps >= 1e-3 of the weight scale so that "
+              "eps/4 - n stays above it.")
 ASSUMPTIONS = [
     "the set of covered constraint kinds is read from each library's "
     "assert_constraints (unimodality, joint unimodality, convexity excluded)",
@@ -63,8 +73,19 @@ LAYERS = ["lattice", "lattice", "lattice", "pwl", "pwl", "linear", "linear",
           "categorical", "kfl", "kfl", "rtl", "rtl"]
 WMODES = ["feasible", "feasible", "raw", "inject", "inject", "inject"]
 EPS_REL = [1e-6, 1e-5, 1e-4, 1e-4, 1e-3, 1e-2, 1e-2, 1e-1]
-EPS_ABS = [1e-6, 1e-4, 1e-2]
+EPS_ABS = [1e-6, 1e-4, 1e-2, 1.0, 100.0]
+# eps when the call omits it: the documented defaults of the signatures.
+EPS_DEFAULT = {"linear": 1e-4}
+EPS_DEFAULT_OTHER = 1e-6
 MARGINS = [0.0, 0.0, 1e-3, 0.05, 0.3]
+# size of the injected violation in units of eps: clearly above (>= 4), just
+# above the raise threshold of the decision band (2.5), and - below 1 - a
+# violation that the documented "allowed violation" eps accepts (0.2).
+MULTS = [4.0, 4.0, 8.0, 64.0, 2.5, 2.5, 0.2, 0.2]
+MONO_STR = {1: "increasing", -1: "decreasing", 0: "none"}
+UNIMOD_STR = {1: "valley", -1: "peak", 0: "none"}
+CONV_STR = {1: "convex", -1: "concave", 0: "none"}
+DIR_STR = {1: "positive", -1: "negative"}
 BIG = 2 ** 20
 
 
@@ -109,13 +130,43 @@ def _case(draw, tier):
   case = {"layer": layer}
   shape = None
   if layer == "lattice":
-    sizes = draw(S.lattice_sizes(max_rank=5 if big else 4,
-                                 max_size=4 if big else 3,
-                                 max_weights=256 if big else 81))
+    # the pairwise families are rare in the shared strategy: add one (they
+    # need two dimensions).
+    boost = draw(st.sampled_from(["none", "mdom", "rdom", "jmono", "ew",
+                                  "tz"]))
+    min_rank = 1 if boost == "none" else 2
+    if draw(st.integers(0, 2)) == 0:
+      # three or more cells in one dimension (rank <= 2 keeps the vertex
+      # count): one size in 4..5 (thorough 6), the other one anything.
+      top = 6 if big else 5
+      sizes = [draw(st.integers(4, top))]
+      if min_rank == 2 or draw(st.booleans()):
+        sizes.insert(draw(st.integers(0, 1)), draw(st.integers(2, top)))
+    else:
+      sizes = draw(S.lattice_sizes(max_rank=5 if big else 4,
+                                   max_size=4 if big else 3,
+                                   max_weights=256 if big else 81,
+                                   min_rank=min_rank))
     cfg = draw(S.lattice_config(sizes, approx=True))
-    # the dominance / joint families are rare in the shared strategy: add one.
-    boost = draw(st.sampled_from(["none", "none", "mdom", "rdom", "jmono"]))
     mono_dims = [i for i, m in enumerate(cfg["mono"]) if m == 1]
+    need = {"mdom": 2, "rdom": 2, "ew": 1, "tz": 1}.get(boost, 0)
+    if len(sizes) >= 2 and len(mono_dims) < need:
+      # the family needs monotonic dimensions: make some (a monotonic
+      # dimension cannot be unimodal as well).
+      free = [d for d in draw(st.permutations(range(len(sizes))))
+              if d not in mono_dims and not any(d == t[1] for t in
+                                                cfg["ew"] + cfg["tz"])]
+      for d in free[:need - len(mono_dims)]:
+        cfg["mono"][d] = 1
+        cfg["unimod"][d] = 0
+        cfg["junimod"] = [j for j in cfg["junimod"] if d not in j[0]]
+      mono_dims = [i for i, m in enumerate(cfg["mono"]) if m == 1]
+    if (boost in ("ew", "tz") and mono_dims and len(sizes) >= 2 and
+        not cfg["ew"] and not cfg["tz"]):
+      # (no other trust: the main / conditional roles cannot clash.)
+      m = draw(st.sampled_from(mono_dims))
+      c = draw(st.sampled_from([d for d in range(len(sizes)) if d != m]))
+      cfg[boost] = [[m, c, draw(st.sampled_from([-1, 1]))]]
     if boost in ("mdom", "rdom") and len(mono_dims) >= 2 and not cfg[boost]:
       cfg[boost] = [list(draw(st.permutations(mono_dims))[:2])]
     if boost == "jmono" and len(sizes) >= 2 and not cfg["jmono"]:
@@ -175,10 +226,27 @@ def _case(draw, tier):
   case["cfg"] = cfg
   case["wmode"] = draw(st.sampled_from(WMODES))
   case["weights"] = draw(S.array_desc(shape=shape))
-  if draw(st.integers(0, 3)) == 0:
+  case["mult"] = draw(st.sampled_from(MULTS))
+  emode = draw(st.sampled_from(["abs", "rel", "rel", "rel", "default"]))
+  if case["wmode"] == "inject" and case["mult"] < 1.0:
+    # an accepted violation is only decidable when eps/20 exceeds the float32
+    # noise of the library's expression: eps relative to the weights, >= 1e-3.
+    case["eps"] = {"mode": "rel",
+                   "value": draw(st.sampled_from([1e-3, 1e-2, 1e-2, 1e-1]))}
+  elif emode == "abs":
     case["eps"] = {"mode": "abs", "value": draw(st.sampled_from(EPS_ABS))}
+  elif emode == "default":
+    # assert_constraints() without the argument.
+    case["eps"] = {"mode": "default", "value": EPS_DEFAULT.get(
+        layer, EPS_DEFAULT_OTHER)}
   else:
     case["eps"] = {"mode": "rel", "value": draw(st.sampled_from(EPS_REL))}
+  # documented-as-equivalent ways of writing the configuration.
+  case["spell"] = {
+      "mono": draw(st.sampled_from(["int", "int", "str", "mixed"])),
+      "dir": draw(st.sampled_from(["int", "str"])),
+      "single": draw(st.booleans()),
+      "sizes": draw(st.sampled_from(["list", "list", "tuple"]))}
   case["margin"] = draw(st.sampled_from(MARGINS))
   # the target of the injected violation: indices into the full lists of
   # (covered kinds present) x (locations of that kind) x (units); "where"
@@ -189,7 +257,10 @@ def _case(draw, tier):
                   "sub": draw(st.integers(0, BIG)),
                   "where": draw(st.sampled_from(["any", "any", "first",
                                                  "last"]))}
-  case["mult"] = draw(st.sampled_from([4.0, 4.0, 8.0, 64.0]))
+  if layer == "lattice" and max(cfg["sizes"]) >= 4:
+    # the far cells are what the larger lattices are for.
+    case["pick"]["where"] = draw(st.sampled_from(["any", "last", "last",
+                                                  "first"]))
   case["aux"] = draw(S.seeds)
   return case
 
@@ -384,13 +455,14 @@ COMMON_KINDS = ("mono", "bound_min", "bound_max", "negative_weight",
                 "scale_sign", "scale_range")
 
 
-def pick_target(kinds, pick):
+def pick_target(kinds, pick, flat=False):
   """(row index, kind) of the injected violation drawn from the full list;
-  kinds that few configurations have are drawn three times as often."""
+  kinds that few configurations have are drawn three times (the pairwise
+  Lattice families twelve times) as often, unless `flat`."""
   present = []
   for k in sorted(set(kinds)):
-    present += [k] * (1 if k in COMMON_KINDS else 6 if k in (
-        "ew", "tz", "mdom", "rdom") else 3)
+    present += [k] * (1 if k in COMMON_KINDS or flat else 12 if k in (
+        "ew", "tz", "mdom", "rdom", "jmono") else 3)
   if not present:
     return None, None
   kind = present[spread("kind", pick["kind"]) % len(present)]
@@ -430,11 +502,14 @@ def eps_of(case, scale):
   e = case["eps"]
   # (all-zero weights have no scale: stay far above the float32 denormals,
   # which TensorFlow kernels may flush to zero.)
-  return float(e["value"]) if e["mode"] == "abs" else float(
+  return float(e["value"]) if e["mode"] in ("abs", "default") else float(
       e["value"]) * max(scale, 1e-20)
 
 
 def inject_size(case, eps, noise):
+  if case["mult"] < 1.0:
+    # a violation that the allowed violation eps accepts: nothing is added.
+    return case["mult"] * eps
   return case["mult"] * eps + 6.0 * noise
 
 
@@ -469,19 +544,37 @@ def lattice_weights(cfg, case, raw, out, aux):
 
 def lattice_inject(cfg, k32, case, eps, out, prefix=""):
   a, rhs, kinds = lattice_system(cfg)
-  i, kind = pick_target(kinds, case["pick"])
+  # lattices with >= 4 vertices per dimension: every kind equally likely (the
+  # point is the location, see "where" in the strategy).
+  i, kind = pick_target(kinds, case["pick"], flat=max(cfg["sizes"]) >= 4)
   if i is None:
     out.label("inject:nothing-to-violate")
     return k32
+  if int(np.max(np.unravel_index(np.nonzero(a[i])[0], cfg["sizes"]))) >= 3:
+    # a vertex that lattices with <= 3 vertices per dimension do not have.
+    out.label("inject:vertex-index>=3", "inject:vertex-index>=3:" + kind)
   u = spread("unit", case["pick"]["unit"]) % k32.shape[1]
   w64 = k32[:, u].astype(np.float64)
   noise = 16 * ulp32(max(float(np.abs(a[i]) @ np.abs(w64)), abs(rhs[i])))
   w, how = inject_row(a, rhs, i, inject_size(case, eps, noise), w64, kinds)
   k = k32.copy()
   k[:, u] = w.astype(np.float32)
+  upos = "first" if u == 0 else "last" if u == k32.shape[1] - 1 else "middle"
   out.label("inject:%s%s" % (prefix, kind), "inject-how:" + how,
-            "inject-unit:%s" % ("first" if u == 0 else "last" if
-                                u == k32.shape[1] - 1 else "middle"))
+            "inject-unit:%s" % upos)
+  if kind in ("ew", "tz", "mdom", "rdom", "jmono"):
+    # sub-classes of the pairwise families: unit position, trust direction,
+    # order of the two dimensions, side of the trapezoid.
+    tag = R.constraint_rows(cfg, LAT_COVERED)[i][1]
+    fam = "inject:%s%s:" % (prefix, kind)
+    out.label(fam + "unit=" + upos,
+              fam + ("first-dim>second-dim" if tag[0] > tag[1] else
+                     "first-dim<second-dim"))
+    if kind in ("ew", "tz"):
+      out.label(fam + "direction=%+d" % tag[2])
+    if kind == "tz":
+      same = [q for q, kk in enumerate(kinds) if kk == "tz"]
+      out.label(fam + ("side=low" if same.index(i) % 2 == 0 else "side=top"))
   return k
 
 
@@ -491,9 +584,48 @@ def lattice_measure(meas, cfg, k32, tag=""):
                k32.astype(np.float64))
 
 
-def build_lattice(cfg, units):
+def _word(spell, i):
+  how = (spell or {}).get("mono", "int")
+  return how == "str" or (how == "mixed" and i % 2 == 0)
+
+
+def spelled_lattice_kwargs(cfg, spell):
+  """S.lattice_kwargs rewritten in the drawn documented-as-equivalent spelling
+  ('increasing' / 'valley' / 'positive' strings, one constraint tuple instead
+  of a list with one tuple, lattice_sizes as a tuple) + labels."""
+  kw = S.lattice_kwargs(cfg)
+  sp = spell or {}
+  labels = []
+  if sp.get("mono", "int") != "int":
+    kw["monotonicities"] = [MONO_STR[m] if _word(sp, i) else m
+                            for i, m in enumerate(cfg["mono"])]
+    if "unimodalities" in kw:
+      kw["unimodalities"] = [UNIMOD_STR[v] if _word(sp, i) else v
+                             for i, v in enumerate(cfg["unimod"])]
+    labels.append("spelled:monotonicity-strings")
+  for name in ("edgeworth_trusts", "trapezoid_trusts"):
+    if name in kw and sp.get("dir") == "str":
+      kw[name] = [(m, c, DIR_STR[d]) for m, c, d in kw[name]]
+      labels.append("spelled:trust-direction-strings")
+  if sp.get("single"):
+    for name in ("edgeworth_trusts", "trapezoid_trusts",
+                 "monotonic_dominances", "range_dominances",
+                 "joint_monotonicities"):
+      if name in kw and len(kw[name]) == 1:
+        kw[name] = kw[name][0]
+        labels.append("spelled:single-tuple")
+  if sp.get("sizes") == "tuple":
+    kw["lattice_sizes"] = tuple(kw["lattice_sizes"])
+    labels.append("spelled:sizes-tuple")
+  return kw, labels
+
+
+def build_lattice(cfg, units, spell=None, out=None):
   import tensorflow_lattice as tfl
-  layer = tfl.layers.Lattice(units=units, **S.lattice_kwargs(cfg))
+  kw, labels = spelled_lattice_kwargs(cfg, spell)
+  if out is not None:
+    out.label(*labels)
+  layer = tfl.layers.Lattice(units=units, **kw)
   d = len(cfg["sizes"])
   layer.build((None, d) if units == 1 else (None, units, d))
   return layer
@@ -677,9 +809,16 @@ def pwl_missing_input(cfg):
   return float(kp[0]) - 7.0
 
 
-def build_pwl(cfg):
+def build_pwl(cfg, spell=None, out=None):
   import tensorflow_lattice as tfl
   kw = S.pwl_layer_kwargs(cfg)
+  sp = spell or {}
+  if sp.get("mono", "int") != "int":
+    kw["monotonicity"] = MONO_STR[cfg["mono"]]
+    if out is not None:
+      out.label("spelled:monotonicity-strings")
+  if sp.get("dir") == "str":
+    kw["convexity"] = CONV_STR[cfg["conv"]]
   kw["input_keypoints_type"] = cfg["kp_type"]
   kw["split_outputs"] = cfg["split"]
   if cfg["impute"] != "none":
@@ -774,7 +913,7 @@ def linear_inject(cfg, w32, case, eps, out):
   else:
     noise = 16 * ulp32(float(np.abs(a[i]) @ np.abs(w[:, u])))
     size = inject_size(case, eps, noise)
-    if cfg["norm"]:
+    if cfg["norm"] and case["mult"] >= 1.0:
       size *= 2.0                       # renormalisation below may shrink it
     col, how = inject_row(a, rhs, i, size, w[:, u], kinds[:a.shape[0]])
     if cfg["norm"]:
@@ -788,10 +927,23 @@ def linear_inject(cfg, w32, case, eps, out):
   return w.astype(np.float32)
 
 
-def build_linear(cfg):
+def build_linear(cfg, spell=None, out=None):
   import tensorflow_lattice as tfl
+  kw = S.linear_kwargs(cfg)
+  sp = spell or {}
+  labels = []
+  if sp.get("mono", "int") != "int":
+    kw["monotonicities"] = [MONO_STR[m] if _word(sp, i) else m
+                            for i, m in enumerate(cfg["mono"])]
+    labels.append("spelled:monotonicity-strings")
+  if sp.get("single") and len(set(cfg["mono"])) == 1:
+    # "Instead of a list or tuple single value can be specified".
+    kw["monotonicities"] = kw["monotonicities"][0]
+    labels.append("spelled:scalar-monotonicities")
+  if out is not None:
+    out.label(*labels)
   layer = tfl.layers.Linear(num_input_dims=cfg["dims"], units=cfg["units"],
-                            use_bias=cfg["use_bias"], **S.linear_kwargs(cfg))
+                            use_bias=cfg["use_bias"], **kw)
   layer.build((None, cfg["dims"]) if cfg["units"] == 1 else
               (None, cfg["units"], cfg["dims"]))
   return layer
@@ -925,7 +1077,7 @@ def kfl_inject(cfg, kern32, scale32, case, eps, out, prefix=""):
           s.astype(np.float32))
 
 
-def build_kfl(cfg):
+def build_kfl(cfg, spell=None, out=None):
   import tensorflow as tf
   import tensorflow_lattice as tfl
   kw = dict(lattice_sizes=cfg["size"], units=cfg["units"],
@@ -933,6 +1085,11 @@ def build_kfl(cfg):
             output_max=cfg["omax"], clip_inputs=cfg["clip"])
   if any(cfg["mono"]):
     kw["monotonicities"] = list(cfg["mono"])
+    if (spell or {}).get("mono", "int") != "int":
+      kw["monotonicities"] = [MONO_STR[m] if _word(spell, i) else m
+                              for i, m in enumerate(cfg["mono"])]
+      if out is not None:
+        out.label("spelled:monotonicity-strings")
   layer = tfl.layers.KroneckerFactoredLattice(**kw)
   d, u = cfg["dims"], cfg["units"]
   layer.build(tf.TensorShape((None, d) if u == 1 else (None, u, d)))
@@ -1013,11 +1170,14 @@ def reseed(desc, k):
 
 
 # ---------------------------------------------------------------- run
-def call_assert(layer, eps):
+def call_assert(layer, eps, case=None):
   """True if the assertion failed (InvalidArgumentError), False if passed."""
   import tensorflow as tf
   try:
-    layer.assert_constraints(eps)
+    if case is not None and case["eps"]["mode"] == "default":
+      layer.assert_constraints()       # judged with the documented default
+    else:
+      layer.assert_constraints(eps)
   except tf.errors.InvalidArgumentError as e:
     return True, str(e).split("\n")[0][:160]
   return False, ""
@@ -1030,6 +1190,9 @@ def judge(out, case, meas, eps, raised, msg, **sig):
                   library_message=msg)
   out.label("claim:" + claim, "eps:%s:%g" % (case["eps"]["mode"],
                                            case["eps"]["value"]))
+  if case["wmode"] == "inject":
+    out.label("inject-size:%geps" % case["mult"],
+              "inject-size:%geps/claim:%s" % (case["mult"], claim))
   covered = meas.kinds()
   for k in covered:
     out.label("covered:" + k)
@@ -1064,6 +1227,8 @@ def run_case(case):
 
   if layer_kind == "lattice":
     n = int(np.prod(cfg["sizes"]))
+    if max(cfg["sizes"]) >= 4:
+      out.label("lattice:size>=4")
     raw = S.materialize(case["weights"], (n, units))
     k32, scale = lattice_weights(cfg, case, raw, out, case["aux"])
     if k32 is None:
@@ -1072,12 +1237,12 @@ def run_case(case):
     eps = eps_of(case, scale)
     if wmode == "inject":
       k32 = lattice_inject(cfg, k32, case, eps, out)
-    layer = build_lattice(cfg, units)
+    layer = build_lattice(cfg, units, case.get("spell"), out)
     layer.kernel.assign(k32)
     lattice_measure(meas, cfg, layer.kernel.numpy())
     if any(cfg["unimod"]) or cfg["junimod"]:
       out.label("uncovered-families-configured")
-    raised, msg = call_assert(layer, eps)
+    raised, msg = call_assert(layer, eps, case)
     judge(out, case, meas, eps, raised, msg, layer="lattice",
           units_gt1=units > 1)
     return out
@@ -1122,7 +1287,7 @@ def run_case(case):
     if wmode == "inject":
       k32, miss = pwl_inject(cfg, k32, miss, case, eps,
                              pwl_noise(cfg, k32, miss), out)
-    layer = build_pwl(cfg)
+    layer = build_pwl(cfg, case.get("spell"), out)
     layer.kernel.assign(k32)
     moved = cfg["logits"] == "moved"
     if moved:
@@ -1139,7 +1304,7 @@ def run_case(case):
     pwl_measure(meas, cfg, k32, miss, pwl_noise(cfg, k32, miss))
     crash = None
     try:
-      raised, msg = call_assert(layer, eps)
+      raised, msg = call_assert(layer, eps, case)
     except (ValueError, AttributeError, TypeError) as e:
       crash = e
     if crash is not None:
@@ -1198,21 +1363,21 @@ def run_case(case):
           out.label("inject:" + kind, "inject-how:" + how,
                     "inject-unit:%s" % ("first" if u == 0 else "last" if
                                         u == units - 1 else "middle"))
-    layer = build_linear(cfg) if layer_kind == "linear" else (
-        build_categorical(cfg))
+    layer = build_linear(cfg, case.get("spell"), out) if (
+        layer_kind == "linear") else build_categorical(cfg)
     layer.kernel.assign(w32)
     w32 = layer.kernel.numpy()
     if layer_kind == "linear":
       linear_measure(meas, cfg, w32)
     else:
       poly_measure(meas, a, rhs, kinds, w32.astype(np.float64))
-    raised, msg = call_assert(layer, eps)
+    raised, msg = call_assert(layer, eps, case)
     judge(out, case, meas, eps, raised, msg, layer=layer_kind,
           units_gt1=units > 1)
     return out
 
   if layer_kind == "kfl":
-    layer = build_kfl(cfg)
+    layer = build_kfl(cfg, case.get("spell"), out)
     kshape = tuple(layer.kernel.shape)
     kraw = S.materialize(case["weights"], (int(np.prod(kshape)), 1)).reshape(
         kshape)
@@ -1231,7 +1396,7 @@ def run_case(case):
     layer.kernel.assign(k32)
     layer.scale.assign(s32)
     kfl_measure(meas, cfg, layer.kernel.numpy(), layer.scale.numpy())
-    raised, msg = call_assert(layer, eps)
+    raised, msg = call_assert(layer, eps, case)
     judge(out, case, meas, eps, raised, msg, layer="kfl",
           units_gt1=cfg["units"] > 1)
     return out
@@ -1286,7 +1451,7 @@ def run_case(case):
     else:
       sub.scale.assign(weights[k][1])
       kfl_measure(meas, scfg, sub.kernel.numpy(), sub.scale.numpy())
-  raised, msg = call_assert(layer, eps)
+  raised, msg = call_assert(layer, eps, case)
   judge(out, case, meas, eps, raised, msg, layer="rtl",
         units_gt1=len(subs) > 1 or subs[0][1]["units"] > 1)
   return out
